@@ -1406,12 +1406,32 @@ def expandTableFile(Eups, ofd, ifd, productList, versionRegexp=None, force=False
     setupBlocks.append(block)
 
     lastSetupBlock = None               # index of the _last_ block of setups
+    generated = None                    # are we in a block that a previous expansion wrote? "pins" or "setups"
 
     for line in ifd:
         if re.search(r"^\s*(#.*)?$", line):
             block[1].append(line)
             continue
         line = re.sub(r"\s*#.*$", "", line) # strip comments running to the end of the line
+        #
+        # Has this table been expanded before?  If so drop what that expansion added, wherever it stands:
+        #   if (type == exact) {  with the versions it pinned,  } else {,  if (type != exact) {
+        # and the brace that closes the setups they guard; the setups themselves are processed (and guarded) anew
+        #
+        if generated == "pins":
+            if re.search(r"^\s*}\s*else\s*{\s*$", line):
+                generated = "setups"
+            elif re.search(r"^\s*}\s*$", line):
+                generated = None
+            continue
+        elif generated == "setups" and re.search(r"^\s*}\s*$", line):
+            generated = None
+            continue
+        elif not generated:
+            mat = re.search(r"^\s*if\s*\(type\s*([!=])=\s*exact\)\s*{\s*$", line)
+            if mat:
+                generated = "pins" if mat.group(1) == "=" else "setups"
+                continue
 
         # Attempt substitutions.  A setup command may be spelt in any way Table._read accepts: the name in any
         # case, blanks between the name and the parenthesis
@@ -1516,13 +1536,6 @@ def expandTableFile(Eups, ofd, ifd, productList, versionRegexp=None, force=False
         isSetupBlock, block = setupBlocks[i]
 
         if not isSetupBlock:
-            if len(block) == 1 and re.search(r"if\s*\(type\s*==\s*exact\)\s*{", block[0]):
-                # We've found a pre-existing exact block
-                # This is FRAGILE!!  Should count forward past matching braces
-                i += 3
-                setupBlocks[i - 1] = (False, []) # the closing "}"
-                continue
-
             if len(block) >= 1 and re.search(r"{\s*$", block[0]):
                 output(ofd, indentLevel, block[0])
                 indentLevel += 1
